@@ -25,6 +25,31 @@ type Solver struct {
 	Unknowns   int
 	TimeoutMs  int
 	Transcript io.Writer // optional: every line sent
+
+	// Fallback portfolio. Everything a path sends sits inside one top-level
+	// (push)...(pop), so the lines since that (push) reconstruct the solver
+	// state exactly. When the primary solver answers unknown, the same lines are
+	// replayed into a fresh process of each fallback binary (longer time limit);
+	// the first definite answer is used. If it is sat, that process stays alive
+	// as alt to serve the following get-value, and is dropped at the next command.
+	Bin       string
+	log       []string
+	marks     []int
+	depth     int
+	alt       *Solver
+	Fallbacks int // unknowns resolved by a fallback solver
+	noFallback bool
+}
+
+// fallbackBins lists the solvers tried, in order, after bin said unknown.
+func fallbackBins(bin string) []string {
+	switch {
+	case strings.Contains(bin, "cvc5"):
+		return []string{"z3-new", "z3"}
+	case strings.Contains(bin, "z3-new"):
+		return []string{"z3", "cvc5"}
+	}
+	return []string{"z3-new", "cvc5"}
 }
 
 func NewSolver(bin string, timeoutMs int) (*Solver, error) {
@@ -50,7 +75,7 @@ func NewSolver(bin string, timeoutMs int) (*Solver, error) {
 	if err := c.Start(); err != nil {
 		return nil, err
 	}
-	sv := &Solver{cmd: c, in: bufio.NewWriterSize(in, 1<<16), out: bufio.NewReaderSize(out, 1<<16), TimeoutMs: timeoutMs}
+	sv := &Solver{cmd: c, in: bufio.NewWriterSize(in, 1<<16), out: bufio.NewReaderSize(out, 1<<16), TimeoutMs: timeoutMs, Bin: bin}
 	if strings.Contains(bin, "cvc5") {
 		sv.send("(set-logic ALL)")
 	}
@@ -58,15 +83,52 @@ func NewSolver(bin string, timeoutMs int) (*Solver, error) {
 }
 
 func (s *Solver) Close() {
+	s.dropAlt()
 	s.send("(exit)")
 	s.in.Flush()
 	s.cmd.Process.Kill()
 	s.cmd.Wait()
 }
 
+func (s *Solver) dropAlt() {
+	if s.alt != nil {
+		a := s.alt
+		s.alt = nil
+		a.Close()
+	}
+}
+
 func (s *Solver) send(l string) {
 	if s.Transcript != nil {
 		io.WriteString(s.Transcript, l+"\n")
+	}
+	if !s.noFallback {
+		if !strings.HasPrefix(l, "(get-value") {
+			s.dropAlt()
+		}
+		switch {
+		case l == "(push)":
+			if s.depth == 0 {
+				s.log = s.log[:0]
+				s.marks = s.marks[:0]
+			} else {
+				s.marks = append(s.marks, len(s.log))
+				s.log = append(s.log, l)
+			}
+			s.depth++
+		case l == "(pop)":
+			s.depth--
+			if n := len(s.marks); n > 0 {
+				// drop the popped scope: the log stays the net state
+				s.log = s.log[:s.marks[n-1]]
+				s.marks = s.marks[:n-1]
+			} else {
+				s.log = s.log[:0]
+			}
+		case l == "(check-sat)" || strings.HasPrefix(l, "(get-value") || l == "(exit)":
+		default:
+			s.log = append(s.log, l)
+		}
 	}
 	s.in.WriteString(l)
 	s.in.WriteByte('\n')
@@ -92,10 +154,57 @@ func (s *Solver) check() string {
 	case "sat", "unsat":
 		return l
 	case "unknown", "timeout":
+		if r := s.tryFallbacks(); r != "" {
+			s.Fallbacks++
+			return r
+		}
 		s.Unknowns++
 		return "unknown"
 	}
 	panic(engineError{"solver said: " + l})
+}
+
+// tryFallbacks replays the current path's solver state into fresh processes of the
+// other solvers; returns "sat", "unsat" or "" (all unknown / unavailable).
+func (s *Solver) tryFallbacks() (res string) {
+	if s.noFallback || s.depth == 0 {
+		return ""
+	}
+	for _, bin := range fallbackBins(s.Bin) {
+		r := func() (r string) {
+			defer func() {
+				if recover() != nil {
+					r = ""
+				}
+			}()
+			tm := s.TimeoutMs * 2
+			a, err := NewSolver(bin, tm)
+			if err != nil {
+				return ""
+			}
+			a.noFallback = true
+			for _, l := range s.log {
+				a.send(l)
+			}
+			t0 := time.Now()
+			r = a.check()
+			s.Time += time.Since(t0)
+			s.Queries++
+			if r == "sat" {
+				s.alt = a
+			} else {
+				a.Close()
+			}
+			if r == "unknown" {
+				r = ""
+			}
+			return r
+		}()
+		if r != "" {
+			return r
+		}
+	}
+	return ""
 }
 
 // getValues returns the values of the named constants as raw SMT text.
@@ -103,6 +212,10 @@ func (s *Solver) getValues(names []string) map[string]string {
 	res := map[string]string{}
 	if len(names) == 0 {
 		return res
+	}
+	if s.alt != nil {
+		// the last sat answer came from a fallback process: its model is the witness
+		return s.alt.getValues(names)
 	}
 	s.send("(get-value (" + strings.Join(names, " ") + "))")
 	s.in.Flush()
